@@ -77,6 +77,11 @@ def make_desc(spec):
         bulge = {e: rng.choice([-1, 1]) * rng.uniform(0.06, 0.3) for e in edges}
     desc, _ = tissue.instance_desc(pos, cells, k, sim, id_offset=spec["id_offset"], id_stride=spec["id_stride"],
                                    bulge=bulge, shuffle_rng=rng if spec["shuffle"] else None)
+    lam = 2.0 ** spec.get("u", 0)
+    if lam != 1.0:
+        # the same tissue written in another length unit (x 2**u, exact in binary floating point)
+        for row in desc["V"]:
+            row[1], row[2] = row[1] * lam, row[2] * lam
     return desc
 
 
@@ -110,15 +115,17 @@ def assignment(rng, kind, n, m):
     return [rng.uniform(-5, 5) for _ in range(n)], [rng.uniform(-5, 5) for _ in range(m)]
 
 
-def _assign(fr, p, T):
+def _assign(fr, p, T, lam=1.0):
+    """lam: length unit of the embedding; a tension is a force per length, so the same physical state has tension T x lam
+    (the logged values stay in the unit-free frame: areas / lam^2, lengths / lam, tensions / lam)"""
     for c, v in zip(fr.cells.values(), p):
         c.pressure = v
     for b, v in zip(fr.big_edges.values(), T):
-        b.tension = v
+        b.tension = v * lam
 
 
-def _read(fr):
-    return ([fxc(c.pressure) for c in fr.cells.values()], [fxc(b.tension) for b in fr.big_edges.values()])
+def _read(fr, lam=1.0):
+    return ([fxc(c.pressure) for c in fr.cells.values()], [fxc(b.tension / lam) for b in fr.big_edges.values()])
 
 
 def _tb(exc):
@@ -132,6 +139,7 @@ def case_events(case, spec):
     import forsys.stress_tensor as st
     rng = random.Random(spec["seed"] + 17)
     G, radius = spec["grid"], spec["radius"]
+    lam = 2.0 ** spec.get("u", 0)
     try:
         vertices, edges, cells = build.build_mesh(make_desc(spec))
         fr = fs.frames.Frame(0, vertices, edges, cells, time=0)
@@ -139,20 +147,20 @@ def case_events(case, spec):
         cids = list(fr.cells.keys())
         cidx = {cid: i + 1 for i, cid in enumerate(cids)}
         n, m = len(cids), len(fr.big_edges)
-        cms = [c.get_cm() for c in fr.cells.values()]
-        areas = [abs(c.get_area()) for c in fr.cells.values()]
+        cms = [[z / lam for z in c.get_cm()] for c in fr.cells.values()]
+        areas = [abs(c.get_area()) / lam / lam for c in fr.cells.values()]
         oc = [[cidx.get(cid, 0) for cid in b.own_cells] for b in fr.big_edges.values()]
         _assign(fr, [0.0] * n, [0.0] * m)
-        vec = list(st.get_big_edges_df(fr)["vector"]) if m else []
+        vec = [[z / lam for z in v] for v in st.get_big_edges_df(fr)["vector"]] if m else []
         with np.errstate(all="ignore"):
-            xe_fallback = np.histogram([c[0] for c in cms], G)[1]
+            xe_fallback = np.histogram([c[0] for c in cms], G)[1]      # cms are already in the unit-free frame
             ye_fallback = np.histogram([c[1] for c in cms], G)[1]
     except Exception as exc:  # building the input failed: machinery, not a verdict
         raise core.MachineryFailure(f"C18 case {case} {spec}: {exc!r}")
 
     def tensor_event(p, T, extra):
-        _assign(fr, p, T)
-        lp, lT = _read(fr)
+        _assign(fr, p, T, lam)
+        lp, lT = _read(fr, lam)
         ev = {"case": case, "ev": "Tensor", "p": lp, "T": lT, "ent": [], "bc": [[], []], "xe": [], "ye": [],
               "finite": True, "raised": ""}
         ev.update(extra)
@@ -164,9 +172,9 @@ def case_events(case, spec):
                 ev["ent"] = [{"k": keystr(k), "s": [fxc(a[0][0]), fxc(a[0][1]), fxc(a[1][0]), fxc(a[1][1])]}
                              for k, a in sig.items()]
                 ev["finite"] = bool(all(np.all(np.isfinite(np.asarray(a, dtype=float))) for a in sig.values()))
-                ev["bc"] = [[fxc(x) for x in bc[0]], [fxc(y) for y in bc[1]]]
-                ev["xe"] = [fxc(x) for x in bins[0]]
-                ev["ye"] = [fxc(y) for y in bins[1]]
+                ev["bc"] = [[fxc(x / lam) for x in bc[0]], [fxc(y / lam) for y in bc[1]]]
+                ev["xe"] = [fxc(x / lam) for x in bins[0]]
+                ev["ye"] = [fxc(y / lam) for y in bins[1]]
         except Exception as exc:
             ev["raised"] = _tb(exc)
         return ev, out
@@ -185,8 +193,8 @@ def case_events(case, spec):
     e4, _ = tensor_event([p0] * n, [0.0] * m, {"run": 4, "what": "pure"})
     # principal stresses on one of the assignments
     pp, TT = [(p1, T1), (p2, T2), (p3, T3)][spec["principal_on"]]
-    _assign(fr, pp, TT)
-    lp, lT = _read(fr)
+    _assign(fr, pp, TT, lam)
+    lp, lT = _read(fr, lam)
     e5 = {"case": case, "ev": "Principal", "p": lp, "T": lT, "items": [], "raised": ""}
     try:
         if case % 3 == 0:
@@ -201,7 +209,7 @@ def case_events(case, spec):
                 cplx = bool(np.iscomplexobj(w) and np.any(np.imag(w) != 0)) or \
                     bool(np.iscomplexobj(v) and np.any(np.imag(v) != 0))
                 w, v = np.real(w), np.real(v)
-                e5["items"].append({"kx": fxc(key[0]), "ky": fxc(key[1]), "w": [fxc(w[0]), fxc(w[1])],
+                e5["items"].append({"kx": fxc(key[0] / lam), "ky": fxc(key[1] / lam), "w": [fxc(w[0]), fxc(w[1])],
                                     "v": [fxc(v[0][0]), fxc(v[0][1]), fxc(v[1][0]), fxc(v[1][1])],
                                     "cplx": cplx})
     except Exception as exc:
@@ -246,7 +254,9 @@ def make_specs(ctx, grids):
                 "radius": rng.choice(RADII) if rng.random() < 0.6 else round(rng.uniform(0.5, 6.0), 3),
                 "kinds": [rng.choice(KINDS), rng.choice(KINDS)], "ab": [a, b],
                 "p0": rng.choice([round(rng.uniform(-5, 5), 3), round(rng.uniform(-5, 5), 3), -2.5, 0.0, 3.0]),
-                "principal_on": rng.choice([0, 1, 2])}
+                "principal_on": rng.choice([0, 1, 2]),
+                # one case in five is written in another length unit (x 2**u: e.g. microns as metres)
+                "u": rng.choice([-20, -27, -34, 14]) if rng.random() < 0.2 else 0}
 
     reps_cat = ctx.pick(1, 8)
     for rep in range(reps_cat):
